@@ -409,3 +409,17 @@ for _sign, _pre in (('-', 'operator-prefix'), ('+', 'noop')):
                Case(f'"{_sign}" anywhere else becomes {_pre}', lambda ptype, psub: Not(_is_infix_position(ptype, psub)),
                     (lambda pre: lambda ptype, psub, out: out.kind == 'ret' and spec.eq(out.value, pre))(_pre))],
         call=_prefix_call(_sign), native_call=_prefix_native(_sign)))
+
+
+# ---- F5: '%' binds tighter than every binary operator: the scanner folds 'number%' into ONE operand ------------------------------------
+def _percent_unit():
+    from contracts import c02_tokenizer as T2
+    pu = [u for u in T2.UNITS if u.id == 'C02/tokenizer.getTokens/percent_step'][0]
+    return Unit(
+        id='C01/tokenizer.getTokens/percent_literal_is_one_operand', target=pu.target, prop='C01', inputs=pu.inputs, requires=pu.requires,
+        cases=[Case('a numeric literal followed by "%" leaves the scanner as ONE operand worth a hundredth of it - so no binary operator, however '
+                    'tightly it binds, can separate the literal from its percent sign', lambda *a: True, T2._percent_step)],
+        call=pu.call, native_call=pu.native_call, cross_key=pu.cross_key, timeout_ms=20000)
+
+
+UNITS.append(_percent_unit())
